@@ -35,6 +35,7 @@ MODULES = [
     "odata_query.sql.sqlite",
     "odata_query.sql.athena",
     "odata_query.django.utils",
+    "odata_query.django.django_q_ext",
     "odata_query.django.django_q",
     "odata_query.sqlalchemy.common",
     "odata_query.sqlalchemy.orm",
